@@ -57,3 +57,12 @@ add("C15", "model_checking",
     "symbolic probe length exactly when the conjunction of the recognised comparisons does, errors exactly when that conjunction is unsatisfiable.",
     "Length constraints only (pattern / constant-set inference is name and identity bookkeeping, outside the symbolic part). Templates and bounds in evidence. "
     "One open known finding (contradictions across inheritance raise ViolationError).")
+
+add("C18", "model_checking",
+    "bounded symbolic execution (CrossHair/z3) of revm.translate on anchored tree skeletons with symbolic code points, bounds and probe string vs. a reference VM interpreter; z3 (QF_LIA) NFA-vs-pattern language comparison for corpus patterns",
+    "The real revm.translate runs on anchored regex trees whose characters/ranges are symbolic over the whole code space; the emitted program is run by an "
+    "interpreter of the documented instruction semantics on a symbolic probe string and compared with the reference tree matcher; corpus patterns "
+    "are encoded as NFAs and compared with CPython's reading of the pattern by z3 for all strings up to a length bound. The generated C++ matcher is "
+    "compiled (g++) and exercised on the solver's witnesses and a battery.",
+    "Skeleton family and probe length as in evidence; the C++ Match loop is only exercised concretely. One open known finding (C++ matcher loops on "
+    "nested nullable repetitions).")
